@@ -970,6 +970,34 @@ def gen_reward(rng):
     return ["r", "DR", [["l", [["s", "x"], ["s", "y"]]], ["l", [["i", 0], ["i", 1]]]]]
 
 
+def long_float(rng):
+    """a finite float with clearly more than 5 decimals"""
+    return repr(rng.randint(-10 ** 6, 10 ** 6) / 1000 + rng.randint(1, 999999) / 10 ** 9 + 1e-7)
+
+
+def long_container(rng, n, depth=1):
+    """a list/tuple of n values that are ints almost everywhere with many-decimal floats (and nested containers) at arbitrary positions"""
+    spots = set(rng.sample(list(range(n)), rng.choice([1, 1, 2, 3])))
+    if rng.chance(0.6):
+        step = max(1, n // 16)
+        spots = {i for i in spots if i % step != 0} or {1}
+    items = []
+    for i in range(n):
+        if i in spots:
+            k = rng.below(4) if depth > 0 else 0
+            if k == 0:
+                items.append(["f", long_float(rng)])
+            elif k == 1:
+                items.append(["d", [[S("x"), ["f", long_float(rng)]], [S("y"), long_container(rng, rng.choice([3, 17, 40]), depth - 1)]]])
+            elif k == 2:
+                items.append(long_container(rng, rng.choice([2, 17, 18, 35]), depth - 1))
+            else:
+                items.append(["t", [["i", 1], ["f", long_float(rng)]]])
+        else:
+            items.append(["i", rng.randint(-9, 99)])
+    return [rng.choice(["l", "t"]), items]
+
+
 def gen_scalar(rng):
     k = rng.wchoice([(10, "none"), (6, "bool"), (16, "int"), (30, "float"), (20, "str"), (5, "reward")])
     if k == "none":
@@ -1041,12 +1069,21 @@ def gen_rows(rng, prone, tags):
     if mode == "zero":
         return []
     if mode == "many":
-        # long outputs with simple cells; a new field shows up late, the last rows matter
-        n = rng.choice([50, 51, 64, 100, 101, 129, 257])
+        # long outputs: a new field shows up late, the last rows matter, and columns that are ints in most rows hold many-decimal
+        # floats at arbitrary positions (a packed column is one long list for `minimize`); also long containers inside a cell
+        n = rng.choice([17, 18, 31, 32, 33, 48, 50, 51, 64, 100, 101, 129, 200, 257])
         late = rng.randint(n // 2, n - 1)
+        spots = set(rng.sample(list(range(n)), rng.choice([1, 1, 2, 3])))
+        if rng.chance(0.5):
+            step = max(1, n // 16)
+            spots = {i for i in spots if i % step != 0} or {min(n - 1, step + 1) if step > 1 else 1}
+        deep = rng.randint(0, n - 1)
         rows = []
         for i in range(n):
-            row = [[S("reward"), ["f", gen_float(rng)] if rng.chance(0.5) else ["i", i]], [S("a"), ["t", [["i", i]]]]]
+            row = [[S("reward"), ["f", gen_float(rng)] if rng.chance(0.5) else ["i", i]], [S("a"), ["t", [["i", i]]]],
+                   [S("cnt"), ["f", long_float(rng)] if i in spots else ["i", i]]]
+            if i == deep:
+                row.append([S("deep"), long_container(rng, rng.choice([17, 20, 33, 64]))])
             if i >= late:
                 row.append([S("late"), ["i", i]])
             rows.append(["d", row])
@@ -1184,6 +1221,55 @@ def eval_floats(case, driver):
                 break
         model = {"n": len(xs)}
     return {"fails": fails, "nontrivial": True, "tags": tags, "impl": {"n": len(xs), "sample": [repr(r) for r in real[:5]]}, "model": model}
+
+
+def long_values(case):
+    """the containers of a {"longs": …} case: pinned ones (`pin` = [[length, [float positions]] …]) or PRNG-made"""
+    from core.prng import Rng
+    rng = Rng(case["longs"], "C07-longs")
+    out = []
+    for n, spots in case.get("pin") or []:
+        for kind in ("l", "t"):
+            items = [["f", "%d.123456789" % (i + 1)] if i in spots else ["i", i] for i in range(n)]
+            out.append([kind, items])
+            out.append(["d", [[S("col"), [kind, items]], [S("other"), ["l", [["i", 0]] * n]]]])
+            out.append(["l", [["i", 7], [kind, items], ["d", [[S("k"), [kind, items]]]]]])
+    for _ in range(case.get("count", 0)):
+        n = rng.choice([17, 18, 31, 32, 33, 34, 47, 48, 49, 64, 100, 101, 160, 200])
+        v = long_container(rng, n, depth=2)
+        out.append(v if rng.chance(0.5) else ["d", [[S("_packed"), ["d", [[S("c"), v], [S("i"), ["l", [["i", j] for j in range(n)]]]]]]]])
+    return out
+
+
+def eval_longs(case, driver):
+    """direct `coba.utilities.minimize` on long lists / tuples / nested containers: (B) every float leaf is rounded and every sequence is a list,
+    element by element, and the call is idempotent; (A) equals the Lean `minimize round5`"""
+    from coba.utilities import minimize
+    vals = long_values(case)
+    fails, tags = [], ["long-container-stream"]
+    reals = []
+    for v in vals:
+        obj = dec(v)
+        r = minimize(obj)
+        reals.append(r)
+        why = val_ok(v, canon_val(r), False)
+        if why:
+            fails.append(F("B", "minimize of a %d-element container leaves it not normalised (%s): %s -> %s" % (len(v[1]), why, json.dumps(v)[:200], json.dumps(canon_val(r))[:200]), "minimize-long:" + why))
+            break
+        if canon_val(minimize(r)) != canon_val(r):
+            fails.append(F("B", "minimize is not idempotent on a %d-element container" % len(v[1]), "minimize-not-idempotent:long"))
+            break
+    model = None
+    if driver is not None:
+        ans = driver.ask({"op": "minimize", "vals": [lean_val(v) for v in vals]})
+        ties = any(has_tie(v) for v in vals)
+        for v, r, m in zip(vals, reals, ans["min"]):
+            a, b = canon_val(r), sort_model_val(m)
+            if a != b and not (ties and eq_mod_ties(a, b)):
+                fails.append(F("A", "minimize(%s): implementation %s, Lean model %s" % (json.dumps(v)[:150], json.dumps(a)[:200], json.dumps(b)[:200]), "A:minimize-long"))
+                break
+        model = {"n": len(vals)}
+    return {"fails": fails, "nontrivial": True, "tags": tags, "impl": {"n": len(vals)}, "model": model}
 
 
 # ------------------------------------------------------------------ phase 3: ids recorded more than once
@@ -1443,6 +1529,14 @@ class C07(Property):
                       "rows": [[t, [D((S("reward"), I(i)))]] for i, t in enumerate([[0, 0, 0], [1, 1, 1], [2, 2, 0], [0, 2, 1]])]})
             c.update(kw)
             cs.append(c)
+        # long packed columns / long containers (round f m1): an int almost everywhere, a many-decimal float at a position a sampling walker skips
+        cs.append({"longs": 0, "count": 0, "pin": [[17, [1]], [17, [16]], [32, [1, 3]], [33, [1]], [33, [32]], [100, [38, 39]], [100, [1]], [200, [13]], [64, [63]]]})
+        for sd in range(1, 4):
+            cs.append({"longs": sd, "count": 40})
+        for n, spots in ([17, [1]], [32, [1]], [33, [1]], [100, [38, 39]]):
+            rows = [D((S("cnt"), (["f", "%d.123456789" % (i + 1)] if i in spots else I(i))), (S("nested"), L(*[(["f", "0.987654321"] if (i in spots and j == 5) else I(j)) for j in range(20)])))
+                    for i in range(n)]
+            cs.append(base(rows, fname="gz" if n % 2 else "plain", gz=bool(n % 2)))
         # phase 3: `minimize` alone on boundary floats (6 x 2000 per run) and logs with ids recorded twice
         for sd in range(6):
             cs.append({"floats": sd, "count": 2000})
@@ -1471,6 +1565,8 @@ class C07(Property):
         tags = []
         if "floats" in case:
             return eval_floats(case, driver)
+        if "longs" in case:
+            return eval_longs(case, driver)
         impl, logs = run_impl(case)
         shown = case
         if dup_ops(case):
@@ -1648,6 +1744,12 @@ class C07(Property):
             if case.get("count", 2000) > 50:
                 c = cp(case); c["count"] = case.get("count", 2000) // 2; yield c
             return
+        if "longs" in case:
+            if case.get("count", 0) > 0:
+                c = cp(case); c["count"] = case["count"] // 2; yield c
+            for i in range(len(case.get("pin") or [])):
+                c = cp(case); c["pin"].pop(i); yield c
+            return
         tris = case["triples"]
         # drop components no triple refers to (renumbering the rest)
         for kind, pos in (("envs", 0), ("lrns", 1), ("vals", 2)):
@@ -1739,6 +1841,9 @@ class C07(Property):
                         c = cp(case); c["rows"][ti][1][ri][1][ki][1] = ["i", 1]; yield c
 
     def snippet(self, case):
+        if "longs" in case:
+            return ("import sys, json; sys.path[:0] = [%r, '/verif/harness']\nfrom props.c07 import long_values, dec, val_ok, canon_val\nfrom coba.utilities import minimize\n"
+                    "for v in long_values(json.loads(%r)):\n    print(val_ok(v, canon_val(minimize(dec(v))), False))   # None = normalised\n" % (os.environ.get("COBA_REPO", "/repo"), json.dumps(case)))
         if "floats" in case:
             return ("import sys; sys.path[:0] = [%r, '/verif/harness']\nfrom props.c07 import boundary_floats\nfrom coba.utilities import minimize\n"
                     "for x in boundary_floats(%d, %d):\n    r = minimize(x)\n    assert minimize(r) == r, (x, r)\n" % (os.environ.get("COBA_REPO", "/repo"), case["floats"], case.get("count", 2000)))
